@@ -84,14 +84,29 @@ func c16Encoded(c *core.Ctx) {
 		} else {
 			okArgs = okArgs && len(cl.Expr.Args) == 1
 		}
-		// its result goes to write
-		toWrite := false
+		// its result goes to write — on the edge where the encoder reported no error
+		defOf := func(x ast.Expr, idx int) bool { // x is the local that received result idx of this call
+			v, _ := core.ObjOf(info, x).(*types.Var)
+			if v == nil {
+				return false
+			}
+			for _, d := range u.DefsOf(v) {
+				if te, isT := d.(*core.TupleElem); isT && te.Index == idx && ast.Unparen(te.X) == cl.Expr {
+					return true
+				}
+			}
+			return false
+		}
+		errNil := nilGuard(false, func(_ *core.Unit, x ast.Expr) bool { return defOf(x, 1) })
+		toWrite, checked := false, false
 		for _, w := range u.CallsTo("transports.(*polling).write") {
-			if tupleOf(u, w.Arg(0), cl.Expr, 0) {
+			if defOf(w.Arg(0), 0) {
 				toWrite = true
+				checked = g.GuardedBy(w.Loc, errNil)
 			}
 		}
 		c.Check(R, keyf("transports.(*polling).send/EncodePayload(v3=%v)→write", v3), cl.Pos(), okArgs && toWrite, "encodes the batch and writes the result")
+		c.Check(R, keyf("transports.(*polling).send/EncodePayload(v3=%v)/written-only-when-encoded", v3), cl.Pos(), checked, "the buffer is handed to write only on the err == nil edge of the encoder (a failed reader yields a nil buffer: DoWrite dereferences it on a goroutine nobody recovers)")
 	}
 	c.Need(R, "EncodePayload calls in polling.send", n, 2)
 	if w := c.Fn(R, "transports.(*polling).write"); w != nil {
